@@ -80,12 +80,31 @@ func c03Run(c *vk.Ctx) {
 			keys[n-1].Cipher = "chacha20-ietf-poly1305"
 		}
 		w := newC03World(c, r, keys, 30*time.Second)
+		dns, derr := lab.StartDNS()
+		if derr != nil {
+			fatalf("dns: %v", derr)
+		}
+		dns.SetScript(func(name string, qtype uint16, nth int) lab.DNSAnswer {
+			for i, t := range w.targets {
+				if name == fmt.Sprintf("t%d.c03.lab", i) {
+					return lab.DNSAnswer{IPs: []net.IP{t.Addr.IP}}
+				}
+			}
+			return lab.DNSAnswer{RCode: 3}
+		})
 		fc, err := newUDPClient(net.IPv4(198, 51, 100, 250).To4(), 0, keys[r.Intn(n)])
 		if err != nil {
 			fatalf("fence client: %v", err)
 		}
 		ok := c03Clients(c, r, w, fc)
+		if ok {
+			ok = c03HostnamePairs(c, r, w)
+		}
+		if ok {
+			ok = c03ListReplaced(c, r, w, fc)
+		}
 		fc.Close()
+		dns.Close()
 		w.close()
 		if !ok {
 			return
@@ -342,6 +361,133 @@ func c03Clients(c *vk.Ctx, r *rand.Rand, w *c03World, fc *udpClient) bool {
 	return true
 }
 
+// c03HostnamePairs: a datagram whose destination is a host name, immediately followed by another
+// datagram of the same client (no waiting in between): both arrive with exactly their payloads.
+func c03HostnamePairs(c *vk.Ctx, r *rand.Rand, w *c03World) bool {
+	for i := 0; i < c.N(6, 20); i++ {
+		k := w.keys[r.Intn(len(w.keys))]
+		cl, err := newUDPClient(net.IPv4(198, 51, 100, byte(1+r.Intn(200))).To4(), 0, k)
+		if err != nil {
+			continue
+		}
+		ss := k.Codec().C.SaltSize
+		type sent struct {
+			id      uint64
+			tgt     *udpTarget
+			payload []byte
+		}
+		var all []sent
+		// the association exists already
+		id0 := nextID(c.Batch)
+		cl.Send(ssUDP(k, randBytes(r, ss), w.targets[0].addr(), mkUDPPayload(id0, 0, 0, 20)), w.rig.Addr4())
+		w.targets[0].waitID(id0, udpB)
+		for j := 0; j < 10; j++ {
+			ti := r.Intn(3) // the three IPv4 targets
+			idA, idB := nextID(c.Batch), nextID(c.Batch)
+			pa, pb := mkUDPPayload(idA, 0, 0, 40+r.Intn(400)), mkUDPPayload(idB, 0, 0, 40+r.Intn(400))
+			cl.Send(ssUDP(k, randBytes(r, ss), sscodec.AddrDomain(fmt.Sprintf("t%d.c03.lab", ti), w.targets[ti].Addr.Port), pa), w.rig.Addr4())
+			tj := r.Intn(3)
+			cl.Send(ssUDP(k, randBytes(r, ss), w.targets[tj].addr(), pb), w.rig.Addr4())
+			all = append(all, sent{idA, w.targets[ti], pa}, sent{idB, w.targets[tj], pb})
+		}
+		for _, s := range all {
+			g, ok := s.tgt.waitID(s.id, udpB)
+			c.Eval("hostname-then-literal|back-to-back|" + k.Cipher)
+			if !ok {
+				c.Violation("C03/valid-datagram-not-forwarded", map[string]any{"phase": "host-name destination followed at once by another datagram", "target": s.tgt.Name})
+				cl.Close()
+				return false
+			}
+			if !bytes.Equal(g.Data, s.payload) {
+				c.Violation("C03/forwarded-payload-differs", map[string]any{"phase": "host-name destination followed at once by another datagram", "first_diff": firstDiff(g.Data, s.payload)})
+				cl.Close()
+				return false
+			}
+		}
+		// nothing else arrived at the targets under these ids (no duplicates)
+		for _, s := range all {
+			if n := len(s.tgt.findID(s.id)); n != 1 {
+				c.Violation("C03/datagram-forwarded-more-than-once", map[string]any{"times": n})
+				cl.Close()
+				return false
+			}
+		}
+		c.Count("hostname_pairs_intact", int64(len(all)/2))
+		cl.Close()
+	}
+	return true
+}
+
+// c03ListReplaced: the key list is replaced; keys that were removed no longer open
+// associations - also not from a host that used them before - and kept keys still do.
+func c03ListReplaced(c *vk.Ctx, r *rand.Rand, w *c03World, fc *udpClient) bool {
+	if len(w.keys) < 3 {
+		return true
+	}
+	removed := w.keys[0]
+	var kept []KeySpec
+	for _, k := range w.keys[1:] {
+		if k.Material() != removed.Material() {
+			kept = append(kept, k)
+		}
+	}
+	if len(kept) == 0 || kept[0].ID == fc.Key.ID && len(kept) == 1 {
+		return true
+	}
+	ip := net.IPv4(198, 51, 100, byte(201+r.Intn(40))).To4()
+	// the host uses the key that is about to be removed
+	before, err := newUDPClient(ip, 0, removed)
+	if err != nil {
+		return true
+	}
+	id := nextID(c.Batch)
+	before.Send(ssUDP(removed, randBytes(r, removed.Codec().C.SaltSize), w.targets[0].addr(), mkUDPPayload(id, 0, 0, 20)), w.rig.Addr4())
+	if _, ok := w.targets[0].waitID(id, udpB); !ok {
+		c.Violation("C03/valid-datagram-not-forwarded", map[string]any{"phase": "before list replacement"})
+		return false
+	}
+	before.Close()
+	w.rig.CL.Update(BuildList(kept))
+	// a fresh fence client under a kept key (the old fence client's association stays bound to
+	// the key that opened it, which may just have been removed)
+	fc2, err := newUDPClient(net.IPv4(198, 51, 100, 249).To4(), 0, kept[0])
+	if err != nil {
+		return true
+	}
+	defer fc2.Close()
+	fc = fc2
+	// same host, new port, removed key: nothing may be forwarded, no association
+	after, err := newUDPClient(ip, 0, removed)
+	if err != nil {
+		return true
+	}
+	defer after.Close()
+	id2 := nextID(c.Batch)
+	after.Send(ssUDP(removed, randBytes(r, removed.Codec().C.SaltSize), w.targets[0].addr(), mkUDPPayload(id2, 0, 0, 20)), w.rig.Addr4())
+	if !w.fence(c, r, fc) {
+		return false
+	}
+	c.Eval("list-replaced|removed-key-from-known-host|" + removed.Cipher)
+	if len(w.targets[0].findID(id2)) != 0 || len(w.rig.Rec.ByClient(after.Addr.String())) != 0 {
+		c.Violation("C03/removed-key-still-opens-associations-after-list-replacement", map[string]any{"key": removed, "host": ip.String()})
+		return false
+	}
+	// a kept key works from that host
+	k := kept[r.Intn(len(kept))]
+	ok2, err := newUDPClient(ip, 0, k)
+	if err == nil {
+		defer ok2.Close()
+		id3 := nextID(c.Batch)
+		ok2.Send(ssUDP(k, randBytes(r, k.Codec().C.SaltSize), w.targets[0].addr(), mkUDPPayload(id3, 0, 0, 20)), w.rig.Addr4())
+		if _, ok := w.targets[0].waitID(id3, udpB); !ok {
+			c.Violation("C03/valid-datagram-not-forwarded", map[string]any{"phase": "kept key after list replacement", "key": k})
+			return false
+		}
+	}
+	c.Count("list_replacements_checked", 1)
+	return true
+}
+
 func keyPosOf(keys []KeySpec, k KeySpec) int {
 	for i, o := range keys {
 		if o.ID == k.ID {
@@ -376,6 +522,8 @@ func init() {
 			c.Require("invalid_from_fresh_address_dropped")
 			c.Require("wrong_key_on_live_association_dropped")
 			c.Require("zoned_link_local_replies_verified")
+			c.Require("hostname_pairs_intact")
+			c.Require("list_replacements_checked")
 			c03Run(c)
 		},
 	})
